@@ -16,7 +16,7 @@ from ..absint import k3 as K3
 from ..absint.ctx import ref_to
 from ..cfg import CFG, call_graph, reachable_bodies
 from ..facts import Broken, callee_name, span_loc
-from ..mirq import expr, DefUse
+from ..mirq import expr, DefUse, operand_place
 from ..report import Finding
 
 LEVEL = "other"
@@ -282,6 +282,8 @@ def _termination(facts, rep):
                 ok = True
             if not ok and _reader_helper_loop(facts, b, cfg, du, h, blks):
                 ok = True
+            if not ok and _zero_read_leaves(b, cfg, du, h, blks):
+                ok = True
             if n in tcp and not ok:
                 # the reconnect loop is the one permitted non-terminating loop; it must be unreachable without --tcp (C18)
                 rep.oblige(True, ("loop", n, "tcp"))
@@ -412,6 +414,102 @@ def _read_count_loop(b, cfg, du, h, blks):
                 o = o[1]
             if o[0] == "call" and o[1].split("::")[-1] in ("read_until", "read", "skip_until"):
                 return True
+    return False
+
+
+def _zero_read_leaves(b, cfg, du, h, blks):
+    """`while matches!(r.read_until(..), Ok(n) if n > 0) { .. }` and friends: every cycle reads from the input, and when the
+    read reports 0 bytes (end of input) control leaves the loop.  Decided by following, from each comparison of the count
+    with a constant, the outcome for count = 0 through blocks that only move constants around (the bool temporary of
+    `matches!` / `&&`)."""
+    from ..lineexpr import walk
+    from ..mirq import expr
+    blks = set(blks)
+    backs = [a for a, hh in cfg.back_edges() if hh == h]
+    reads = [bi for bi in blks if b.blocks[bi]["term"]["k"] == "call" and (b.blocks[bi]["term"]["callee"].get("path") or "") in
+             ("std::io::BufRead::read_until", "std::io::Read::read", "std::io::BufRead::read_line")]
+    reads = [bi for bi in reads if all(cfg.dominates(bi, a) for a in backs)]
+    if not reads:
+        return False
+
+    def is_count(x):
+        return any(y[0] == "call" and isinstance(y[1], str) and y[1].split("::")[-1] in ("read_until", "read", "read_line") for y in walk(x))
+
+    def eval0(e):
+        """value of a comparison tree when the byte count is 0"""
+        if e[0] == "const" and isinstance(e[1], (int, bool)):
+            return e[1]
+        if e[0] in ("path", "call") and is_count(e):
+            return 0
+        if e[0] == "cast":
+            return eval0(e[2])
+        if e[0] == "un" and e[1] == "Not":
+            v = eval0(e[2])
+            return None if v is None else (not v)
+        if e[0] == "bin":
+            l, r = eval0(e[2]), eval0(e[3])
+            if l is None or r is None:
+                return None
+            f = {"Eq": lambda: l == r, "Ne": lambda: l != r, "Lt": lambda: l < r, "Le": lambda: l <= r, "Gt": lambda: l > r, "Ge": lambda: l >= r}.get(e[1])
+            return f() if f else None
+        return None
+
+    def walk_out(start, env):
+        cur = start
+        for _ in range(40):
+            if cur not in blks:
+                return True
+            if cur == h:
+                return False
+            blk = b.blocks[cur]
+            for s in blk["stmts"]:
+                if s["k"] == "assign" and not s["place"]["proj"]:
+                    rv = s["rv"]
+                    if rv["k"] == "use" and "const" in rv["x"] and "int" in rv["x"]["const"]:
+                        env[s["place"]["local"]] = int(rv["x"]["const"]["int"])
+                    elif rv["k"] == "use" and operand_place(rv["x"]) and not operand_place(rv["x"])["proj"] and operand_place(rv["x"])["local"] in env:
+                        env[s["place"]["local"]] = env[operand_place(rv["x"])["local"]]
+                    else:
+                        env.pop(s["place"]["local"], None)
+            t = blk["term"]
+            if t["k"] == "goto":
+                cur = t["target"]
+            elif t["k"] in ("drop", "assert") or (t["k"] == "call" and (t["callee"].get("path") or "").startswith("std::")
+                                                   and t["callee"].get("name") in ("drop", "drop_in_place")):
+                cur = t.get("target")
+                if cur is None:
+                    return False
+            elif t["k"] == "switch":
+                pl = operand_place(t["discr"])
+                if pl is None or pl["proj"] or pl["local"] not in env:
+                    return False
+                v = env[pl["local"]]
+                nxt = t["otherwise"]
+                for val, bb2 in t["targets"]:
+                    if int(val) == v:
+                        nxt = bb2
+                cur = nxt
+            else:
+                return False
+        return False
+
+    for bi in sorted(blks):
+        t = b.blocks[bi]["term"]
+        if t["k"] != "switch":
+            continue
+        e = expr(du, t["discr"])
+        if not (isinstance(e, tuple) and e[0] == "bin" and is_count(e)):
+            continue
+        v = eval0(e)
+        if v is None:
+            continue
+        v = int(v)
+        nxt = t["otherwise"]
+        for val, bb2 in t["targets"]:
+            if int(val) == v:
+                nxt = bb2
+        if walk_out(nxt, {}):
+            return True
     return False
 
 
